@@ -9,6 +9,7 @@ PID = "C02"
 LEVEL = "other"
 CRATES = ["rlib_segtree"]
 RELEASE = True
+NO_HIDDEN_STATE = ['rlib_segtree']   # driver rule STATE: these crates are plain data structures / functions
 ARMED = True
 ENGINES = ["E1", "E3", "E4a"]
 TECHNIQUE = "path-sensitive term-flow abstract interpretation of lower_bound_internal / lower_bound_rev_internal: operand order and guard facts at the predicate call, carry provenance between sibling calls, leaf-only Some, visiting order, entry arguments; inductive range containment shared with C01"
